@@ -29,7 +29,7 @@ func TestVerifC05Sockets(t *testing.T) {
 	dynamicHostResolver = &DynamicHostResolver{interval: time.Hour, stop: 1, hostIPs: make(map[string]*AddressWithCallback)}
 	nseq := ev.Pick(400, 1200)
 	ntrial := ev.Pick(25, 100)
-	var firstMember, floods, outages int64
+	var firstMember, floods, outages, fixedLocalPort int64
 	noutage := ev.Pick(6, 18)
 	workers := 8
 	var stats c19Stats
@@ -43,7 +43,13 @@ func TestVerifC05Sockets(t *testing.T) {
 			if wi%4 == 3 {
 				scheme = "tcp"
 			}
-			w, err := newC19Worker(200+wi, scheme, wi%2 == 1, run, &stats)
+			// one of the tcp rotations belongs to a listener with a fixed backend-local-port
+			lp := 0
+			if scheme == "tcp" && wi == 7 {
+				lp = 17000 + wi
+				atomic.AddInt64(&fixedLocalPort, 1)
+			}
+			w, err := newC19WorkerX(200+wi, scheme, wi%2 == 1, false, run, &stats, lp)
 			if err != nil {
 				setupErr.Store(err.Error())
 				return
@@ -235,6 +241,7 @@ func TestVerifC05Sockets(t *testing.T) {
 	run.Observe("first_member_registered_under_traffic_trials", firstMember)
 	run.Observe("members_down_for_a_moment_and_back", outages)
 	run.Observe("filler_requests_injected_meanwhile", floods)
+	run.Observe("tcp_rotations_of_a_listener_with_fixed_backend_local_port", fixedLocalPort)
 	if stats.dispatchProbes < int64(nseq) {
 		run.Violation("observed-nothing", map[string]any{"dispatch_probes": stats.dispatchProbes})
 	}
